@@ -66,6 +66,8 @@ def children(t):
         return list(t["terms"])
     if c == "Delta":
         return [x for _, p, ld in t["terms"] for x in (p, ld)]
+    if c == "Integ":
+        return [t["measure"], t["integrand"]]
     return []
 
 
